@@ -184,3 +184,17 @@ def concrete_region():
     from crosshair.tracers import NoTracing, is_tracing
 
     return NoTracing() if is_tracing() else _Null()
+
+
+def concretize(x):
+    """deep-realise a value that may contain CrossHair proxies (failing paths only)"""
+    try:
+        from crosshair.core import deep_realize
+        from crosshair.tracers import ResumedTracing, is_tracing
+
+        if is_tracing():
+            return deep_realize(x)
+        with ResumedTracing():
+            return deep_realize(x)
+    except Exception as exc:
+        return "<unrealisable: %r>" % (exc,)
